@@ -46,6 +46,32 @@ func main() {
 			os.Exit(2)
 		}
 		fmt.Println("selftest ok")
+	case "alone":
+		// alone <seed> <pool> <call>: one call of the C09/C10 call pool in a process of its own
+		if len(os.Args) != 5 {
+			os.Exit(2)
+		}
+		seed, _ := strconv.ParseInt(os.Args[2], 10, 64)
+		id, _ := strconv.Atoi(os.Args[3])
+		call, _ := strconv.Atoi(os.Args[4])
+		os.Exit(props.RunAlone(seed, id, call))
+	case "stampede":
+		// stampede <seed> <pool> <idx> <mode>: cold-start round of C10 in a process of its own
+		if len(os.Args) != 6 {
+			os.Exit(2)
+		}
+		seed, _ := strconv.ParseInt(os.Args[2], 10, 64)
+		id, _ := strconv.Atoi(os.Args[3])
+		idx, _ := strconv.Atoi(os.Args[4])
+		os.Exit(props.RunStampede(seed, id, idx, os.Args[5]))
+	case "racecanary":
+		// a deliberate data race in harness code: proves that the race runtime is active and reporting
+		var x int
+		done := make(chan bool)
+		go func() { x = 1; done <- true }()
+		x = 2
+		<-done
+		fmt.Println("canary done", x)
 	case "list":
 		for _, id := range core.IDs() {
 			fmt.Println(id)
@@ -162,8 +188,24 @@ func cmdRun(args []string) int {
 			return 2
 		}
 		rd := filepath.Join(*dir, "race")
+		// the race runtime must be active and reporting: a deliberate race in a throw-away child must be logged
+		os.MkdirAll(rd, 0o755)
+		can := exec.Command(*racebin, "racecanary")
+		can.Env = append(os.Environ(), "GORACE=halt_on_error=0 log_path="+filepath.Join(*dir, "canary"))
+		can.Run()
+		cl, _ := filepath.Glob(filepath.Join(*dir, "canary*"))
+		found := false
+		for _, f := range cl {
+			if b, _ := os.ReadFile(f); strings.Contains(string(b), "WARNING: DATA RACE") {
+				found = true
+			}
+		}
+		if !found {
+			fmt.Printf("INCONCLUSIVE property=%s reason=race-detector-canary-not-reported\n", *prop)
+			return 2
+		}
 		passes = append(passes, pass{name: "race", bin: *racebin, dir: rd, workers: *workers,
-			env: []string{"GORACE=halt_on_error=0 log_path=" + rd + "/racelog"}})
+			env: []string{"GORACE=halt_on_error=0 log_path=" + rd + "/racelog", "JPV_PLAINBIN=" + self}})
 	}
 	var crashes []crash
 	var dirs []string
